@@ -25,14 +25,14 @@ def oracle(x):
     n = np.arange(N, dtype=np.longdouble)
     twopi = 2 * np.pi * np.longdouble(1)
     k = np.arange(N, dtype=np.longdouble)
-    X = np.exp(-1j * twopi * np.outer(k, n) / N) @ xs.astype(np.clongdouble)
+    X = np.tensordot(np.exp(-1j * twopi * np.outer(k, n) / N), xs.astype(np.clongdouble), axes=(1, 0))
     w = np.zeros(N, dtype=np.longdouble)
     for kk in range(N):
         if kk == 0 or (N % 2 == 0 and kk == N // 2):
             w[kk] = 1            # DC and Nyquist are shared between positive and negative frequencies
         elif kk < (N + 1) // 2:
             w[kk] = 2
-    a = np.exp(1j * twopi * np.outer(n, k) / N) @ (X * w.reshape((N,) + (1,) * (x.ndim - 1))) / N
+    a = np.tensordot(np.exp(1j * twopi * np.outer(n, k) / N), X * w.reshape((N,) + (1,) * (x.ndim - 1)), axes=(1, 0)) / N
     a = a * np.exp(-1j * (np.pi * np.longdouble(1)) / 2 * n).reshape((N,) + (1,) * (x.ndim - 1))
     return a[::2]
 
@@ -45,7 +45,7 @@ def run(ctx):
                 'non-trivial: N >= 2; distinct by (shape, axis, dtype, kind, seed).')
     ctx.trusted = ['Coq 8.16.1 kernel + stdlib real axioms (C19_real, C19_mix); vm_compute on primitive floats',
                    'Lib/F64.cis_turn (model-side phasor, 1e-16)', 'scipy.fft = DFT (validated here numerically)']
-    ctx.assumptions = ['tolerance 4e-6*max|x| (float32 input) / 1e-12*N*max|x| (otherwise)']
+    ctx.assumptions = ['tolerance 4e-6*max|x| (float32 and float16 input: scipy.fft works in single precision for both) / 1e-12*N*max|x| (otherwise)']
     built = ctx.build(['Props/C19.vo'])
     ctx.count_obligations(VFILES)
     if built:
@@ -105,7 +105,8 @@ def run(ctx):
         ym = np.moveaxis(y, axis, 0)
         ref = oracle(xm)
         mx = float(np.max(np.abs(xm))) + 1e-300
-        tol = (4e-6 if dt is np.float32 else 1e-12 * max(N, 1)) * mx
+        single = dt in (np.float32, np.float16)      # scipy.fft computes float16 input in single precision
+        tol = (4e-6 if single else 1e-12 * max(N, 1)) * mx
         e = float(np.max(np.abs(ym.astype(np.clongdouble) - ref)))
         ctx.ratio(e, tol)
         if e > tol:
@@ -126,7 +127,7 @@ def run(ctx):
             lhs = real_to_complex((2 * x + 3 * x2).astype(dt), axis=axis)
             rhs = 2 * y + 3 * real_to_complex(x2, axis=axis)
             mx2 = float(np.max(np.abs(x2))) + mx
-            if float(np.max(np.abs(lhs - rhs))) > 40 * tol * (mx2 / mx) + (2e-6 * mx2 if dt is np.float32 else 0):
+            if float(np.max(np.abs(lhs - rhs))) > 40 * tol * (mx2 / mx) + (2e-6 * mx2 if single else 0):
                 ctx.fail('linearity', inp)
         # tone at w cycles -> complex tone at w - N/4 (checked through the spectrum of the output for even N/2 grids)
         # (T) one lane through the binary64 instance of the Gallina transform
